@@ -179,6 +179,10 @@ func normAux(s string) string {
 	s = strings.ReplaceAll(s, "fresh[i]", "aux[i]")
 	s = strings.ReplaceAll(s, "len(cred.AuxGIDs)", "len(aux)")
 	s = strings.ReplaceAll(s, "len(fresh)", "len(aux)")
+	// a length is never negative: != 0 and > 0 say the same
+	if s == "len(aux)!=0" {
+		s = "len(aux)>0"
+	}
 	return s
 }
 
@@ -214,6 +218,42 @@ func (r *c10render) extractRows(armOf func(facts []string) (string, []string)) [
 			for _, f := range r.p.facts(b) {
 				if s := r.cond(f); s != "" {
 					conds = append(conds, normAux(s))
+				}
+			}
+			// a value merged from several paths (ids threaded through the results of an inlined helper):
+			// one row per incoming value, under the conditions of its edge; writing a field's own current
+			// value back is no row at all
+			if st, isStore := in.(*ssa.Store); isStore {
+				if phi, isPhi := st.Val.(*ssa.Phi); isPhi && !inCycle(phi.Block()) {
+					var expand func(phi *ssa.Phi, extra []string, depth int)
+					expand = func(phi *ssa.Phi, extra []string, depth int) {
+						for i, e := range phi.Edges {
+							if i >= len(phi.Block().Preds) {
+								continue
+							}
+							pred := phi.Block().Preds[i]
+							cs := append([]string{}, extra...)
+							for _, f := range append(append([]condFact{}, r.p.facts(pred)...), edgeFacts(pred, phi.Block())...) {
+								if s := r.cond(f); s != "" {
+									cs = append(cs, normAux(s))
+								}
+							}
+							if p2, ok := e.(*ssa.Phi); ok && depth < 3 && !inCycle(p2.Block()) {
+								expand(p2, cs, depth+1)
+								continue
+							}
+							v := r.val(e)
+							if v == target {
+								continue
+							}
+							all := uniq(append(append([]string{}, conds...), cs...))
+							sort.Strings(all)
+							arm, rest := armOf(all)
+							rows = append(rows, tableRow{Arm: arm, Target: target, Val: v, Conds: rest, Pos: r.p.instrPos(in)})
+						}
+					}
+					expand(phi, nil, 0)
+					continue
 				}
 			}
 			sort.Strings(conds)
